@@ -693,7 +693,7 @@ three-valued assignments. Non-trivial = at least 2 adding calls, or nesting dept
         &|i| Case { site: [Site::SelectWhere, Site::SelectHaving, Site::DeleteWhere][(i % 3) as usize], calls: vec![call(i / ns), call(i % ns)] },
         &check,
     );
-    let n = ctx.tier.pick(60_000, 1_500_000);
+    let n = ctx.tier.pick(300_000, 4_000_000);
     ctx.run_proptest("random-histories", n, &case_strategy, &check);
     for p in ctx.parts.iter_mut() {
         if p.kind == "exhaustive" {
